@@ -34,11 +34,12 @@ class CacheLock:
 
     def __enter__(self):
         os.makedirs(self.cache_folder, exist_ok=True)
-        last_timestamp = _read_last_cached_time(self.cache_folder)
         self.current_timestamp = time.time()
-        time_since_update = self.current_timestamp - last_timestamp
-        if time_since_update < self.time_threshold:
-            raise CacheException(f"Last updated {time_since_update} seconds ago.  Threshold is {self.time_threshold}")
+        if self.write_time:
+            last_timestamp = _read_last_cached_time(self.cache_folder)
+            time_since_update = self.current_timestamp - last_timestamp
+            if time_since_update < self.time_threshold:
+                raise CacheException(f"Last updated {time_since_update} seconds ago.  Threshold is {self.time_threshold}")
 
         try:
             self.cache_lock = portalocker.Lock(self.cache_lock_filename, timeout=1)
